@@ -19,7 +19,9 @@ Definition C07_statement : Prop :=
   /\ (forall f vp np na, y_method_outcome f vp np na = None)
   /\ (forall p sm q, y_host_sees p sm q = g_host_sees sm q)
   /\ (forall f over del methods, y_dispatch f over del methods = g_dispatch over del methods)
-  /\ (forall h, y_session true h = g_session h).
+  /\ (forall h, y_session true h = g_session h)
+  /\ (forall p hm sh d k, y_echo p hm sh d k = g_echo k)
+  /\ (forall f c v1 v2, y_stmt f c v1 v2 = g_stmt v1 v2).
 
 (** One value, both directions: what the script reads of a host value is the value; what the host
     reads of a script value is the value (functions: the same graph). Induction over nested graphs. *)
@@ -148,6 +150,49 @@ Print Assumptions C07_session_partial.
 Theorem C07_session_side_condition_inhabited : guarded true h_ok = true /\ y_session true h_ok = [OOk; OOk; OOk].
 Proof. exact guarded_inhabited. Qed.
 Print Assumptions C07_session_side_condition_inhabited.
+
+(** The shape of the argument expression. A parameter of script interface type: for every shape
+    (literal, slot, call, host call, conversion, calls nested to any depth), through any number of
+    forwarding script functions — i.e. however deep the valueInterface boxes nest — the host receives
+    the concrete value. *)
+Theorem C07_echo_iface_full : forall hm sh d, y_echo PIface hm sh d KEcho = ARaw.
+Proof. exact echo_iface. Qed.
+Print Assumptions C07_echo_iface_full.
+
+Theorem C07_echo_concrete_full : forall hm sh d, y_echo PConcrete hm sh d KEcho = ARaw.
+Proof. exact echo_concrete. Qed.
+Print Assumptions C07_echo_concrete_full.
+
+Theorem C07_echo_any_partial : forall hm sh d, any_side hm sh d = true -> y_echo PAny hm sh d KEcho = ARaw.
+Proof. exact echo_any. Qed.
+Print Assumptions C07_echo_any_partial.
+
+(** inhabitants of the side conditions and the refutations outside them (any-box-leak,
+    hostiface-wrapper-visible, hostiface-unwrapped) *)
+Theorem C07_echo_witnesses_refuted :
+  a_forward PIface true 1 (a_expr PIface true (ANested 1)) = (ABox 3, false, false)
+  /\ y_echo PIface true (ANested 1) 2 KEcho = ARaw
+  /\ y_echo PAny true ASlot 0 KEcho = ABox 0 /\ g_echo KEcho = ARaw
+  /\ y_echo PHostIface true ASlot 0 KEcho = AWrap
+  /\ y_echo PConcrete true ACall 0 KEchoStr = AFail /\ g_echo KEchoStr = AWrap
+  /\ y_echo PConcrete true ASlot 0 KEchoStr = AWrap.
+Proof. exact echo_witnesses. Qed.
+Print Assumptions C07_echo_witnesses_refuted.
+
+(** go statements: a callee reached through call() (a host function held in a typed script variable
+    or received as a parameter, a script function, closure or method) gets the values its arguments
+    had at the statement. *)
+Theorem C07_stmt_partial : forall c v1 v2, aliases_slots c = false -> y_stmt FGo c v1 v2 = g_stmt v1 v2.
+Proof. exact stmt_agree. Qed.
+Print Assumptions C07_stmt_partial.
+
+(** inhabitants, and the refutations: go host.F(x) and every defer read the variable when the call runs *)
+Theorem C07_stmt_witnesses_refuted :
+  y_stmt FGo CHostParam (VInt 1) (VInt 2) = VInt 1 /\ y_stmt FGo CScriptClosure (VInt 1) (VInt 2) = VInt 1
+  /\ y_stmt FGo CHostDirect (VInt 1) (VInt 2) = VInt 2 /\ y_stmt FDefer CScriptFunc (VInt 1) (VInt 2) = VInt 2
+  /\ g_stmt (VInt 1) (VInt 2) = VInt 1.
+Proof. exact stmt_witnesses. Qed.
+Print Assumptions C07_stmt_witnesses_refuted.
 
 (** Refutations of the full statement on the faithful model (each replayed on the implementation). *)
 Theorem C07_variadic_empty_refuted :
